@@ -600,7 +600,11 @@ func init() {
 		// ---- uuid
 		"github.com/google/uuid.New":       uuidNew,
 		"github.com/google/uuid.NewRandom": func(r *Run, c *frame, fn *ssa.Function, a []Value) Value { return Tuple{uuidNew(r, c, fn, a), Iface{}} },
-		"github.com/google/uuid.NewString": func(r *Run, c *frame, fn *ssa.Function, a []Value) Value { return r.freshStr("uuidstr") },
+		"github.com/google/uuid.NewString": func(r *Run, c *frame, fn *ssa.Function, a []Value) Value {
+			s := r.freshStr("uuidstr")
+			r.assume(tEq(mkApp(bvSort(64), "strlen", s.Atom), mkBV(64, 36)))
+			return s
+		},
 		"(github.com/google/uuid.UUID).String": func(r *Run, c *frame, fn *ssa.Function, a []Value) Value {
 			arr := a[0].(Array)
 			allc := true
@@ -614,7 +618,9 @@ func init() {
 			}
 			// uninterpreted function of the two 64-bit halves
 			hi, lo := packBytes(arr[:8]), packBytes(arr[8:])
-			return Str{Atom: mkApp(strSort, "uf_uuidstr", hi, lo)}
+			at := mkApp(strSort, "uf_uuidstr", hi, lo)
+			r.assume(tEq(mkApp(bvSort(64), "strlen", at), mkBV(64, 36)))
+			return Str{Atom: at}
 		},
 
 		"github.com/aptpod/iscp-go/log.genTrackID": func(r *Run, c *frame, fn *ssa.Function, a []Value) Value { return r.freshStr("trackid") },
